@@ -1059,3 +1059,10 @@ package vanguard
 //@   atcall[C19,C01] (*compressionPool).decompressLimit: arg(0) == op.client.reqCompression
 //@   ensures[C19] len(src) > 0 ==> r0 != nil
 
+
+// C05: protocol status keys never leak into application metadata: the gRPC status trailers are
+// consumed (deleted) when the end of the RPC is extracted, and nothing else is touched.
+//@ func grpcExtractErrorFromTrailer
+//@   ensures[C05] !hdrHas(trailers, "Grpc-Status") && !hdrHas(trailers, "Grpc-Message") && !hdrHas(trailers, "Grpc-Status-Details-Bin")
+//@   ensures[C05] hdrSameExcept(trailers, "Grpc-Status", "Grpc-Message", "Grpc-Status-Details-Bin")
+//@   modifies mapobj(trailers), $elems|, #LIB0
